@@ -410,8 +410,11 @@ class BaseTemplateFile(BaseTemplate):
             mtime = self.mtime()
 
             if mtime != self._v_last_read:
-                self._v_last_read = mtime
+                # Invalidate before recording the new modification
+                # time: another thread that sees the recorded time must
+                # never find the stale body still marked as cooked.
                 self._cooked = False
+                self._v_last_read = mtime
 
         if self._cooked is False:
             body = self.read()
